@@ -226,16 +226,18 @@ def compileRow (A : Automaton) (s : State) (alphabet : List Nat) : Option (List 
   mapOpt (fun (p : Nat × Nat) => (A.next s p.1).map (fun t => (p.2, t.id)))
     (alphabet.zipIdx.filter (fun p => !s.charMapsToDefault p.1))
 
+/-- `if s.has_default_successor() { builder.set_default(id, d) }` -/
+def compileDefault (s : State) (b : CompactTableBuilder) : Option CompactTableBuilder :=
+  match s.defaultSuccessor with
+  | none => some b
+  | some d => b.setDefault s.id d
+
 /-- the `for s in self.states()` loop of `compile_successors` -/
 def compileLoop (A : Automaton) (alphabet : List Nat) :
     List State → CompactTableBuilder → Option CompactTableBuilder
   | [], b => some b
   | s :: rest, b =>
-    let b1 : Option CompactTableBuilder :=
-      match s.defaultSuccessor with
-      | none => some b
-      | some d => b.setDefault s.id d
-    match b1 with
+    match compileDefault s b with
     | none => none
     | some b1 =>
       match A.compileRow s alphabet with
